@@ -1152,7 +1152,7 @@ def gen_history(rng, family="mixed", nsteps=None, full=False, minimal=None):
     if family == "dirs":
         kw.update(dir_p=0.8)
     if family == "fanout":
-        kw.update(n=rng.randint(3, 4), dir_p=0.0, split_p=0.0, shared_p=0.0)
+        kw.update(n=rng.randint(3, 5), dir_p=0.0, split_p=0.0, shared_p=0.0)
     if family == "links":
         kw.update(link_p=1.0, kind_choices=["rec", "rec", "rec", "src", "star"])
     if family == "aliaswipe":
@@ -1189,8 +1189,8 @@ def gen_history(rng, family="mixed", nsteps=None, full=False, minimal=None):
         dt["outs"] = [o for o in dt["outs"] if not o["dir"]][:1] + [{"dir": True, "rel": "dist%sbulk" % dt["name"][1:]}]
         for x in order[1:]:
             ws["targets"][x]["nocache"] = False
-            if d not in rdeps(ws, x):
-                ws["targets"][x]["deps"].append(d)
+            # independent of each other, so that they are scheduled concurrently and all ask for d's outputs at once
+            ws["targets"][x]["deps"] = [d]
     if family == "samehash":
         order = sorted(ws["targets"], key=lambda x: int(ws["targets"][x]["name"][1:]))
         top = order[-1]
@@ -1263,7 +1263,14 @@ def gen_history(rng, family="mixed", nsteps=None, full=False, minimal=None):
         st = {"k": "build", "patterns": patterns, "minimal": minimal, "enable_cache": True, "fail_fast": False}
         st.update(fl)
         hist["steps"].append(st)
-    build(["//..."] if rng.random() < 0.7 else None)
+    if family == "disabled" and rng.random() < 0.5:
+        # the very first record of every key is written with the cache DISABLED (no outputs in it): the next build cannot use
+        # it, runs everything and has to REPLACE that record, so that the build after that runs nothing
+        build(["//..."], enable_cache=False)
+        build(["//..."])
+        build(["//..."])
+    else:
+        build(["//..."] if rng.random() < 0.7 else None)
     n = nsteps or (rng.randint(5, 7) if family == "revert" else 2 if family == "fanout" else rng.randint(2, 5))
     if family == "cutoff":
         for _ in range(n):
@@ -1345,7 +1352,23 @@ def gen_history(rng, family="mixed", nsteps=None, full=False, minimal=None):
             # edit / revert chains over one cache (>= 5 builds): an earlier state comes back after other states were built,
             # with cache-disabled builds in between
             rr = rng.random()
-            if rr < 0.45 and len(versions) >= 2:
+            if rr < 0.3:
+                # the current state is built with the cache DISABLED (an output-less record is stored under its key),
+                # another state is built, then the first state comes back
+                build(["//..."], enable_cache=False)
+                first = cur
+                e = gen_edit(rng, cur, ["content", "content", "salt"])
+                if e and wf(e[0]):
+                    hist["steps"].append({"k": "edit", "ws": e[0], "writes": e[1], "what": e[2]})
+                    cur = e[0]
+                    versions.append(cur)
+                    build(["//..."])
+                    hist["steps"].append({"k": "edit", "ws": first, "writes": [], "what": "revert sources to the version built with the cache disabled"})
+                    cur = first
+                    versions.append(cur)
+                    build(["//..."])
+                continue
+            if rr < 0.6 and len(versions) >= 2:
                 cur = rng.choice(versions[:-1])
                 versions.append(cur)
                 hist["steps"].append({"k": "edit", "ws": cur, "writes": [], "what": "revert sources to an earlier version"})
@@ -1519,7 +1542,17 @@ def gen_history(rng, family="mixed", nsteps=None, full=False, minimal=None):
             build()
             continue
         if family == "disabled" and r < 0.4:
-            build(enable_cache=False)
+            if rng.random() < 0.5:
+                e = gen_edit(rng, cur, ["content", "salt"])
+                if e and wf(e[0]):
+                    hist["steps"].append({"k": "edit", "ws": e[0], "writes": e[1], "what": e[2]})
+                    cur = e[0]
+                    versions.append(cur)
+            build(["//..."] if full or rng.random() < 0.6 else None, enable_cache=False)
+            if rng.random() < 0.7:
+                build(["//..."])        # the result stored while the cache was disabled is unusable: everything runs once more ...
+                if rng.random() < 0.7:
+                    build(["//..."])    # ... and then nothing
             continue
         if family == "shift" and r < 0.5:
             sp = shift_pair(rng, cur)
